@@ -3,7 +3,7 @@ C18 — property theorems: filtering preserves the mean, the time axis and the p
 
 * Fourier projector: stated for the mathematical DFT over ℂ (`dft`, `idft`, `proj` below, with `ζ` a
   primitive `N`-th root of unity, `ζ = e^{-2πi/N}` for `scipy.fftpack`).  The executable
-  `Nitime.C18.filteredFourierWith grid lb ub n x` is the `Float`-pair mirror of
+  `Nitime.C18.filteredFourierWith grid ub0 lb ub n x` is the `Float`-pair mirror of
   `fun t => (proj ζ n (keepBin grid lb ub n) x t).re` — same mask `keepBin`, same index conventions;
   this reading is part of the trusted base (TRUSTED_EXTRA in harness/c18.py).  `fourier_real`
   shows that for real data and a ±-symmetric mask the inverse transform is already real, so
@@ -291,8 +291,8 @@ theorem highpass_stage_mean (a b : List K) (h : a.length = b.length) (ha : a ≠
   rw [sumL_eq, sumL_eq, sumL_eq, List.length_map, List.length_zip, ← h, Nat.min_self, sum_zip_sub _ a b h]
   field_simp; ring
 
-/-- **boxcar keeps the mean** — for the INTENDED filter (low-pass stage followed by DC restoration;
-proposed_fixes/C18-boxcar-lowpass-mean.diff), every band type -/
+/-- **boxcar keeps the mean**, every band type (low-pass stage followed by DC restoration, then the
+mean-keeping high-pass stage) -/
 theorem boxcar_mean (mUb : ℕ) (mLb : Option ℕ) (x : List K) (hx : x ≠ []) (h1 : 1 ≤ mUb)
     (h2 : ∀ m, mLb = some m → 1 ≤ m) : mean (boxcarFilter mUb mLb x) = mean x := by
   have hlen : (boxLowpass mUb x) ≠ [] := by
@@ -305,22 +305,10 @@ theorem boxcar_mean (mUb : ℕ) (mLb : Option ℕ) (x : List K) (hx : x ≠ []) 
     have hne : restoreDC (mean x) (boxLowpass mUb x) ≠ [] := by simpa [restoreDC] using hlen
     rw [highpass_stage_mean _ _ (boxLowpass_length m (h2 m rfl) _).symm hne, hx1]
 
-/-- what holds for the code as it is TODAY: with a high-pass stage the output has the mean of the
-low-passed signal (equal to the input's only when the upper boxcar has length 1, i.e. pure
-high-pass) -/
-theorem boxcar_mean_partial (mUb m : ℕ) (x : List K) (hx : x ≠ []) (h1 : 1 ≤ mUb) (h2 : 1 ≤ m) :
-    mean (boxcarFilterCurrent mUb (some m) x) = mean (boxLowpass mUb x) := by
-  have hlen : (boxLowpass mUb x) ≠ [] := by
-    intro h; have := boxLowpass_length mUb h1 x; rw [h] at this; simp at this; exact hx (List.length_eq_zero_iff.1 this.symm)
-  simp only [boxcarFilterCurrent]
-  exact highpass_stage_mean _ _ (boxLowpass_length m h2 _).symm hlen
-
 end boxcar
 
-/-- today's low-pass stage changes the mean: `[0, 0, 3]`, boxcar of length 2 -/
-theorem boxcar_mean_counterexample :
-    mean (boxcarFilterCurrent 2 none ([0, 0, 3] : List Rat)) ≠ mean ([0, 0, 3] : List Rat) := by
-  decide +kernel
+/-- non-vacuity (and the former failing input): `[0, 0, 3]`, boxcar of length 2, keeps mean 1 -/
+example : boxcarFilter 2 none ([0, 0, 3] : List Rat) = [-1/2, 1, 5/2] := by decide +kernel
 
 /-! ### output axis -/
 
